@@ -14,28 +14,13 @@
    not complete, and the event may only be closed when it is complete.
 
    A "panic" or "hang" event has no action: the trace is rejected there.    *)
-EXTENDS Machine, Json, IOUtils, TLC
+EXTENDS TraceCommon
 
 Rec == ndJsonDeserialize(IOEnv.TRACE)
 N == Len(Rec)
 
 VARIABLES m, mode, l, cnt, left
 vars == <<m, mode, l, cnt, left>>
-
-Fn0(seq) == [i \in 0..(Len(seq) - 1) |-> seq[i + 1]]
-
-BoardOf(b) == [di1 |-> b.di1, do1 |-> b.do1, do2 |-> b.do2, temp |-> b.temp, ai1 |-> b.ai1, ai2 |-> b.ai2,
-               ao1 |-> b.ao1, ao2 |-> b.ao2, dasr |-> b.dasr, daisr |-> b.daisr, daicr |-> b.daicr,
-               fan |-> b.fan, ud1 |-> b.ud1, ud2 |-> b.ud2, ud3 |-> b.ud3]
-
-\* full state from an event that carries the RAM
-FromLog(s) ==
-  [maddr |-> s.maddr, ir |-> s.ir, regs |-> Fn0(s.regs), prw |-> s.prw, pfw |-> s.pfw,
-   pei |-> s.pei, pli |-> s.pli, wait |-> s.wait, st |-> s.st,
-   aout |-> s.aout, ac |-> s.ac, az |-> s.az, an |-> s.an, lbr |-> s.lbr, ss |-> s.ss, ps |-> s.ps,
-   ram |-> Fn0(s.ram), inr |-> Fn0(s.inr), outr |-> Fn0(s.outr),
-   micr |-> s.micr, misr |-> s.misr, ucr |-> s.ucr, usr |-> s.usr, usend |-> s.usend, urecv |-> s.urecv,
-   ten |-> s.ten, td1 |-> s.td1, td2 |-> s.td2, td3 |-> s.td3, bd |-> BoardOf(s.bd)]
 
 \* every logged field equals the specification's state
 Match(x, md, s) ==
@@ -62,8 +47,6 @@ AsmComplete(x, lf) == x.st # "Running" \/ (lf /\ IsInstructionDone(x)) \/ EdgeF(
 Init == /\ Rec[1].op = "init"
         /\ m = FromLog(Rec[1].s) /\ mode = Rec[1].s.mode
         /\ l = 2 /\ cnt = 0 /\ left = FALSE
-
-OpOf(r) == [op |-> r.op] @@ r.a
 
 Step ==
   /\ l <= N
